@@ -36,8 +36,38 @@ pub(crate) fn escape_html_quote(s: &str) -> Cow<'_, str> {
     })
 }
 
+/// Write a string as a double-quoted string literal.
+///
+/// The result is read back as the same string by JavaScript (sloppy and strict mode)
+/// and by the string literal parser of template expressions.
 pub(crate) fn gen_lit_str(s: &str) -> String {
-    format!("{:?}", s)
+    const HEX_DIGITS: [char; 16] = [
+        '0', '1', '2', '3', '4', '5', '6', '7', '8', '9', 'a', 'b', 'c', 'd', 'e', 'f',
+    ];
+    let mut ret = String::with_capacity(s.len() + 2);
+    ret.push('"');
+    for c in s.chars() {
+        match c {
+            '"' => ret.push_str("\\\""),
+            '\\' => ret.push_str("\\\\"),
+            '\n' => ret.push_str("\\n"),
+            '\r' => ret.push_str("\\r"),
+            '\t' => ret.push_str("\\t"),
+            // other control characters and the line terminators of JavaScript
+            // (`\0` is avoided because a following digit would turn it into an octal escape)
+            '\0'..='\x1f' | '\x7f' | '\u{2028}' | '\u{2029}' => {
+                let v = c as usize;
+                ret.push_str("\\u");
+                ret.push(HEX_DIGITS[(v >> 12) & 0xf]);
+                ret.push(HEX_DIGITS[(v >> 8) & 0xf]);
+                ret.push(HEX_DIGITS[(v >> 4) & 0xf]);
+                ret.push(HEX_DIGITS[v & 0xf]);
+            }
+            c => ret.push(c),
+        }
+    }
+    ret.push('"');
+    ret
 }
 
 pub(crate) fn dash_to_camel(s: &str) -> CompactString {
